@@ -3,6 +3,7 @@ package connect
 import (
 	"bytes"
 	"context"
+	"errors"
 	"io"
 	"net/http"
 	"strings"
@@ -307,4 +308,70 @@ func HarnessC08ClientPreference() {
 	acceptHeader := []string{connectUnaryHeaderAcceptCompression, grpcHeaderAcceptCompression, grpcHeaderAcceptCompression}[proto]
 	got := tr.reqHeader.Get(acceptHeader)
 	check(got == strings.Join(want, ","), "the client advertises its algorithms most-preferred first: latest registration first, the built-in gzip last")
+}
+
+// HarnessC08StreamEnvelopes: every envelope of a streaming response obeys the
+// minimum size - data messages and the final protocol envelope alike (the
+// Connect end-of-stream message, the gRPC-Web trailer block): with
+// compression negotiated, an envelope is flagged compressed exactly when its
+// uncompressed payload reaches compress-min-bytes, and a flagged payload
+// really decompresses.
+//
+//verif:harness property=C08 stubs=json,wire shard=proto:3
+func HarnessC08StreamEnvelopes() {
+	proto := nondetChoice("proto", 3)
+	minBytes := []int{0, 2, 1024}[nondetChoice("minBytes", 3)]
+	msg := nondetBytes("msg", bound("msgLen", 2, 3))
+	fail := nondetBool("fail")
+	handler := NewServerStreamHandler("/pkg.Svc/Method", func(ctx context.Context, req *Request[[]byte], s *ServerStream[[]byte]) error {
+		out := append([]byte{}, msg...)
+		if err := s.Send(&out); err != nil {
+			return err
+		}
+		if fail {
+			return NewError(CodeAborted, errors.New("no"))
+		}
+		return nil
+	}, WithCodec(&stackCodec{}), WithCompressMinBytes(minBytes), c08XorHandler("gzip"))
+	copts := []ClientOption{WithCodec(&stackCodec{}), WithCompressMinBytes(1 << 20), c08XorClient("gzip")}
+	switch proto {
+	case 1:
+		copts = append(copts, WithGRPC())
+	case 2:
+		copts = append(copts, WithGRPCWeb())
+	}
+	tr := &stackTransport{handler: handler}
+	client := NewClient[[]byte, []byte](tr, stackURL, copts...)
+	in := []byte{1}
+	stream, err := client.CallServerStream(context.Background(), NewRequest(&in))
+	check(err == nil, "starting the stream succeeds")
+	if err != nil {
+		return
+	}
+	n := 0
+	for stream.Receive() {
+		check(bytesEq(*stream.Msg(), msg), "the payload survives")
+		n++
+		if n > 2 {
+			break
+		}
+	}
+	check(n == 1, "one message arrives")
+	check((stream.Err() != nil) == fail, "the outcome is the handler's")
+	_ = stream.Close()
+	_, rh, _, rbody := tr.rec.finish()
+	encHeader := []string{connectStreamingHeaderCompression, grpcHeaderCompression, grpcHeaderCompression}[proto]
+	check(rh.Get(encHeader) == "gzip", "the handler names the negotiated algorithm")
+	frames, ok := refParseFrames(rbody)
+	check(ok && len(frames) >= 1, "the response body is a whole number of frames")
+	for _, f := range frames {
+		plainLen := len(f.payload)
+		if f.flags&flagEnvelopeCompressed != 0 {
+			check(len(f.payload) >= 1 && f.payload[0] == 0xC5, "an envelope flagged compressed really is compressed")
+			plainLen = len(f.payload) - 1
+			check(plainLen >= minBytes, "an envelope below compress-min-bytes goes uncompressed (data message or final protocol envelope)")
+		} else {
+			check(plainLen < minBytes || plainLen == 0, "an envelope that reaches compress-min-bytes is compressed")
+		}
+	}
 }
